@@ -1,6 +1,7 @@
 #!/bin/sh
 # usage: seedtest.sh <diff> <check ids...> : applies the diff to a scratch worktree of /repo HEAD and runs the checks against it
 diff=$1; shift
+[ -d /tmp/mut ] || { git -C /repo worktree add -q --detach /tmp/mut HEAD && cp /repo/go.sum /tmp/mut/ 2>/dev/null; }   # scratch worktree (remove with: git -C /repo worktree remove --force /tmp/mut)
 cd /tmp/mut && git checkout -q -- . && git clean -fdq && git checkout -q --detach $(git -C /repo rev-parse HEAD) && git apply "$diff" || { echo "APPLY FAILED $diff"; exit 3; }
 cd /verif
 for id in "$@"; do
